@@ -40,6 +40,11 @@ CONC_RULE = (" A second generator (engine conc) runs concurrent workloads on sou
              "2-8 goroutines issue picks and completions on current and stale pickers; thread-safe invariants are observed at the fake ClientConn.")
 
 
+SCHED_RULE = (" A third generator runs small concurrent programs under a cooperative scheduler that owns the interleaving at the injected yield points (tasks park at every mutex/atomic "
+              "operation; exactly one task runs at a time, chosen by a generated schedule vector; blocking inside the runtime is observed from goroutine wait states; no runnable task for 300 ms = deadlock): "
+              "the schedule vector shrinks and replays.")
+
+
 def _pool(test, rule, nontriv, quick=12000, thorough=150000, extra_assume=None, conc=None):
     d = dict(kind="harness", pkg="./poolsim", test=test,
                 quick=dict(checks=quick, shards=4, timeout=600),
@@ -56,6 +61,11 @@ def _pool(test, rule, nontriv, quick=12000, thorough=150000, extra_assume=None, 
                       dict(pkg="./conc", test=conc[0], replay_key="goroutines", quick_checks=conc[2], thorough_checks=conc[3])]
         d["quick"]["shards"] = 6
         d["thorough"]["shards"] = 15
+        if len(conc) > 4:
+            d["parts"].append(dict(pkg="./conc", test=conc[4], replay_key="schedule", quick_checks=250, thorough_checks=6000))
+            d["quick"]["shards"] = 8
+            d["thorough"]["shards"] = 16
+            d["rule"] += SCHED_RULE
     return d
 
 
@@ -122,7 +132,9 @@ PROPS.update({
                      "endpoint opens exactly max(1,minSize) transport connections (counted at the dialer). Thorough adds native differential fuzzing of the parser against protojson.",
                 assume=POOL_ASSUME + ["acceptance classes of protojson were validated against the parser on the unchanged tree (DESIGN §4 C17)",
                                       "method names listed in several entries are generated but only checked for absence of panics"]),
-    "C12": dict(kind="harness", pkg="./icept", test="TestC12",
+    "C12": dict(kind="harness", pkg="./icept", test="TestC12", instr=True,
+                parts=[dict(pkg="./icept", test="TestC12", replay_key="steps"), dict(pkg="./icept", test="TestC12", replay_key="steps"), dict(pkg="./icept", test="TestC12", replay_key="steps"),
+                       dict(pkg="./conc", test="TestSchedC12", replay_key="schedule", quick_checks=300, thorough_checks=6000)],
                 quick=dict(checks=10000, shards=4, timeout=600),
                 thorough=dict(checks=150000, shards=16, timeout=3000),
                 rule="stream programs: per-creation outcomes (ok / error / blocks until the context ends), up to 14 steps distributed over a sender, a receiver and a third goroutine "
@@ -131,7 +143,8 @@ PROPS.update({
                      "creating context carries the first message and the caller's values, early RecvMsg blocks until creation and is then delegated with its argument / returns the creation error / returns when the context ends, "
                      "sends reach the underlying stream unchanged and in order, post-creation methods return what the underlying stream returns, nothing panics, nothing hangs (real-time watchdog). "
                      "Unary interceptor: all 162 combinations of method/options/request kind/error kind/deadline are enumerated on every run. Non-trivial = a method issued before creation, cancellation "
-                     "while a receiver waits, or a SendMsg after a failed creation; distinct = FNV-1a of the canonical JSON of the program.",
+                     "while a receiver waits, or a SendMsg after a failed creation; distinct = FNV-1a of the canonical JSON of the program. One shard in four runs stream programs (sender, receiver, "
+                     "Header, cancellation as tasks) under the cooperative scheduler with a generated schedule vector over the yield points of the interceptor's lock/cond protocol; a receiver that is never released shows up as a deadlock.",
                 assume=COMMON_ASSUME + ["gRPC's stream concurrency contract is respected by the generator (one sender goroutine for SendMsg/CloseSend, one receiver for RecvMsg)",
                                         "while a blocking stream creation holds the stream's mutex no other method is issued (mutex waits are not observable in a synctest bubble)"]),
     "C11": dict(kind="harness", pkg="./keys", test="TestC11",
@@ -154,12 +167,12 @@ PROPS.update({
                  conc=("TestConcC02", "Invariant: after the workload is quiescent (every completion ran) n picks land on n distinct channels - every count returned to zero.", 300, 5000)),
     "C03": _pool("TestC03", "Profile 'size' ((min,max,watermark) from {0..6}x{0..6}x{0..4} incl. min>max, strict and lenient factories, pool emptied by shutdowns). Oracle: exactly max(1,min) conns after the first non-empty update; growth only by a saturated pick below max with no Idle/Connecting channel, that pick is told to wait; placement at max; size <= max for min<=max; RemoveSubConn only for the old conn of a completed refresh.",
                  "a growth event, a saturated pick at maxSize, or a re-created pool",
-                 conc=("TestConcC03", "Invariant: the number of pool channels ever created never exceeds maxSize (min<=max) although saturated picks race on stale and current pickers while new connections are being brought up; RemoveSubConn only inside the take-over of a replacement.", 400, 6000)),
+                 conc=("TestConcC03", "Invariant: the number of pool channels ever created never exceeds maxSize (min<=max) although saturated picks race on stale and current pickers while new connections are being brought up; RemoveSubConn only inside the take-over of a replacement.", 400, 6000, "TestSchedC03")),
     "C04": _pool("TestC04", "Profile 'states' (hostile state reports for pool/replacement/removed/unknown conns, repeats, shutdowns, refreshes). Oracle: once anything was published the last published state equals the aggregate over pool conns; READY-set change => publication; picker fails fast with ErrTransientFailure iff published with TRANSIENT_FAILURE; reports for non-pool conns publish nothing.",
                  ">=2 distinct published states, >=1 report for a non-pool conn, and a swap or a shutdown"),
     "C07": _pool("TestC07", "Profile 'detector' (unresponsive_calls 0-4, unresponsive_detection_ms in {0,1,7,100,60000,2^31,2^32-1}). Oracle: reference detector per channel (exact big-integer window ms*2^k); refresh attempt during a completion expected <=> observed; failed creation does not disable later refreshes; swap removes the old conn exactly once; detection disabled => never.",
                  "a refresh expected-and-observed plus one of {boundary hit exactly / +-1ns, backoff k>=1, server-side deadline, deadline call started before the last response, factory refusal, suppressed by refresh in progress}",
-                 conc=("TestConcC07", "Invariant: concurrent qualifying completions on one channel create exactly one replacement while its refresh is in progress; no connection is removed twice.", 120, 2500)),
+                 conc=("TestConcC07", "Invariant: concurrent qualifying completions on one channel create exactly one replacement while its refresh is in progress; no connection is removed twice.", 120, 2500, "TestSchedC07")),
     "C08": _pool("TestC08", "Profile 'fallback' (fallback_to_ready on). Oracle: keyed pick with home not READY on the most recent picker is placed on a READY channel whenever one exists (also saturated), the stand-in is reused while it stays READY and home stays not READY (follows a refresh of the stand-in), home READY again => home; bindings unchanged by fallback.",
                  ">=1 reuse of a stand-in plus one of {saturated READY set, stand-in refreshed, stand-in failed, home recovered}"),
     "C09": _pool("TestC09", "Profile 'rr' (ROUND_ROBIN, 1-6 channels, BIND picks with deadlines/cancellation, blocked picks observed with synctest.Wait). Oracle: assignments follow creation order cyclically while the composition is unchanged (first after a change re-synchronises); a pick is handed its channel only when READY or after its context ended; blocked picks are released by the READY report / swap / context end within one 100 ms poll period of virtual time; other calls obey the load rule.",
@@ -170,7 +183,7 @@ PROPS.update({
                  conc=("TestConcC05", "Invariant: no pick or completion panics under concurrency.", 300, 5000)),
     "C06": _pool("TestC06", "Profile 'hostile' plus a lock probe after every op (a state report for a never-seen conn must return: the balancer lock is free). Oracle: a real-time watchdog outside the bubble (3 s; normal latency is microseconds) catches any call that does not return; a pick that is not a round-robin BIND must not block (synctest.Wait shows it durably blocked); a blocked round-robin BIND returns once its channel is READY or within one 100 ms poll period of virtual time after its context ended, and other calls keep working meanwhile.",
                  "the history reaches one of the named states: factory refusing a resolver update (empty list with the strict factory / armed failure), resolver update on an emptied pool, saturated pool with fallback, calls issued while a round-robin BIND is blocked",
-                 conc=("TestConcC06", "Invariant: every workload finishes within 20 s (normal: milliseconds): no lock-order deadlock between completions, picks and balancer callbacks, no leaked lock.", 300, 5000)),
+                 conc=("TestConcC06", "Invariant: every workload finishes within 20 s (normal: milliseconds): no lock-order deadlock between completions, picks and balancer callbacks, no leaked lock.", 300, 5000, "TestSchedC06")),
     "C20": _pool("TestC20", "Profile 'addresses' (>=3 address lists, resolver errors, growth, refreshes at every stage). Oracle: after every update every alive pool conn has the latest list and was asked to reconnect; growth and replacement conns are created with the latest list; a replacement takes over with the latest list; a resolver error causes no ClientConn call.",
                  "a resolver update while a replacement exists followed by its swap, or growth"),
 })
@@ -270,7 +283,11 @@ class Runner:
             shutil.rmtree(d, ignore_errors=True)
 
     def parts(self):
-        return self.spec.get("parts") or [dict(pkg=self.spec["pkg"], test=self.spec["test"])]
+        ps = self.spec.get("parts") or [dict(pkg=self.spec["pkg"], test=self.spec["test"])]
+        only = os.environ.get("VERIF_ONLY_PART")  # development aid: run only the parts whose test name contains this
+        if only:
+            ps = [x for x in ps if only in x["test"]] or ps
+        return ps
 
     def compile(self):
         self.bins = {}
